@@ -47,7 +47,7 @@ def ghost_rx(c):
     g["rx"] = c.fresh("bytes", "rx")
     g["rpos"] = c.fresh("int", "rpos")
     g["rx_calls"] = c.fresh("int", "rx_calls")
-    c.assume(z3.And(z(g["rpos"]) >= 0, z(g["rpos"]) <= slen(z(g["rx"])), z(g["rx_calls"]) >= 0))
+    c.assume(z3.And(z(g["rpos"]) >= 0, z(g["rpos"]) <= slen(z(g["rx"])), z(g["rx_calls"]) >= 0, slen(z(g["rx"])) < 2 ** 63))
 
 
 def joined(c, fb, view=None):
@@ -527,6 +527,7 @@ def install_data(e):
     from .core import mk_ws, lock_ok, TRANSPORT_EXC, WSI, ghost_close
     K = "websocket._core:"
     PONG_OK = lambda op, pay: z3.And(op == 9, slen(pay) <= 125)
+    pongkey = z3.Function("pongkey", Int, Sq)  # ghost: key carried by the j-th pong written in this call
 
     def after_rf(c, fr, r):
         """ghost statement after each frame handed out by recv_frame inside recv_data_frame."""
@@ -534,11 +535,18 @@ def install_data(e):
             return
         fin, op, pay = z(c.getf(r, "fin")), z(c.getf(r, "opcode")), z(c.getf(r, "data"))
         fold_step(c, op, fin, pay)
-        pa, dr = z(c.ghost["pong_acc"]), z(c.ghost["draws"])
-        enc = spec.rfc_encode(1, 0, 0, 0, 10, 1, spec.keyfn(dr), pay)
+        pa, npi = z(c.ghost["pong_acc"]), z(c.ghost["npings"], "int")
+        enc = spec.rfc_encode(1, 0, 0, 0, 10, 1, pongkey(npi), pay)
         c.ghost["pong_acc"] = SV("bytes", z3.If(PONG_OK(op, pay), cat(pa, enc), pa))
-        c.ghost["npings"] = SV("int", z(c.ghost["npings"]) + z3.If(PONG_OK(op, pay), 1, 0))
+        c.ghost["npings"] = SV("int", npi + z3.If(PONG_OK(op, pay), 1, 0))
     e.after_call[("WebSocket.recv_data_frame", "recv_frame")] = after_rf
+
+    def after_pong(c, fr, r):
+        """ghost definition: the key of the j-th expected pong is the value drawn by the pong() call that answers the j-th ping
+        (trace logging may draw further keys through frame.format(); those are not written anywhere)."""
+        if "npings" in c.ghost:
+            c.assume(pongkey(z(c.ghost["npings"], "int") - 1) == spec.keyfn(z(c.ghost["draws"]) - 1))
+    e.after_call[("WebSocket.recv_data_frame", "pong")] = after_pong
 
     def after_send_close(c, fr, r):
         if "auto_close" in c.ghost:
@@ -586,7 +594,7 @@ def install_data(e):
         conn0 = z(old.getf(ws, "connected"), "bool")
         ac0, ac1 = z(old.ghost["auto_close"]), z(c.ghost["auto_close"])
         isdata = z3.Or(d.opcode == 0, d.opcode == 1, d.opcode == 2)
-        close_reply = spec.rfc_encode(1, 0, 0, 0, 8, 1, spec.keyfn(dr0 + npi), spec.be_bytes(z3.IntVal(1000), 2))
+        close_reply = spec.rfc_encode(1, 0, 0, 0, 8, 1, spec.keyfn(z(c.ghost["draws"]) - 1), spec.be_bytes(z3.IntVal(1000), 2))
         common = z3.And(FB(c, fb), CF(c, cf), fop == d.opcode, ffin == d.fin,
                         spec.rfc_ok(d.fin, d.rsv1, d.rsv2, d.rsv3, d.opcode, d.payload, skip, "not_must_reject"))
         if fire is True:
@@ -597,18 +605,18 @@ def install_data(e):
         ctl_case = z3.And(z(op_ret, "int") == d.opcode, c.eq(fdata, d.payload))
         return z3.And(
             common,
-            z3.Implies(isdata, z3.And(data_case, wire_is(c, old), z(c.ghost["draws"]) == dr0 + npi)),
+            z3.Implies(isdata, z3.And(data_case, wire_is(c, old))),
             # a close frame is answered once: only while the connection is still marked connected (no close sent yet)
             z3.Implies(z3.And(d.opcode == 8, conn0),
-                       z3.And(ctl_case, wire_is(c, old, close_reply), z(c.ghost["draws"]) == dr0 + npi + 1,
+                       z3.And(ctl_case, wire_is(c, old, close_reply), z(c.ghost["draws"]) >= dr0 + npi + 1,
                               z3.Not(z(c.getf(ws, "connected"), "bool")), ac1 == ac0 + 1)),
             z3.Implies(z3.And(d.opcode == 8, z3.Not(conn0)),
-                       z3.And(ctl_case, wire_is(c, old), z(c.ghost["draws"]) == dr0 + npi,
+                       z3.And(ctl_case, wire_is(c, old),
                               z3.Not(z(c.getf(ws, "connected"), "bool")), ac1 == ac0)),
             z3.Implies(d.opcode != 8, z3.And(ac1 == ac0, z(c.getf(ws, "connected"), "bool") == conn0)),
             WSI(c, ws),
             z3.Implies(z3.Or(d.opcode == 9, d.opcode == 10),
-                       z3.And(z(a["control_frame"], "bool"), ctl_case, wire_is(c, old), z(c.ghost["draws"]) == dr0 + npi)),
+                       z3.And(z(a["control_frame"], "bool"), ctl_case, wire_is(c, old))),
             z3.Or(isdata, d.opcode == 8, d.opcode == 9, d.opcode == 10))
 
     def rdf_proto_when(c, old, a):
@@ -640,7 +648,7 @@ def install_data(e):
         fb, cf = c.getf(ws, "frame_buffer"), c.getf(ws, "cont_frame")
         return z3.And(FB(c, fb), CF(c, cf), wire_is(c, entry), WSI(c, ws),
                       z(c.ghost["auto_close"]) == z(entry.ghost["auto_close"]),
-                      z(c.ghost["draws"]) == z(entry.ghost["draws"]) + z(c.ghost["npings"], "int"), z(c.ghost["npings"], "int") >= 0)
+                      z(c.ghost["draws"]) >= z(entry.ghost["draws"]) + z(c.ghost["npings"], "int"), z(c.ghost["npings"], "int") >= 0)
 
     GH = ["rpos", "rx_calls", "fstart", "lastf", "wire", "tx_calls", "draws", "m_open", "m_op", "m_data", "pong_acc", "npings", "auto_close"]
 
